@@ -1,11 +1,15 @@
 #!/bin/bash
-# tools/mutcheck.sh <patch-file|-R:commit> <ID>...   — apply a change to /repo, run the quick checks, undo it.
+# tools/mutcheck.sh <patch-file|-R:commit[+commit...]> <ID>...   — apply a change to /repo, run the quick checks, undo it.
 # Prints one line per check: "<ID> exit=<n> <first VIOLATION/KNOWN line>".
 P="$1"; shift
 cd /repo || exit 2
 if [[ "$P" == -R:* ]]; then
-  git show "${P#-R:}" | git apply -R || { echo "cannot reverse-apply"; exit 2; }
+  # one commit, or several joined by '+' (reverse-applied in the order given: newest first)
+  for c in $(echo "${P#-R:}" | tr '+' ' '); do
+    git show "$c" | git apply -R || { echo "cannot reverse-apply $c"; git checkout -- . ; exit 2; }
+  done
 else
+  case "$P" in /*) ;; *) P="/verif/$P";; esac
   git apply "$P" || { echo "cannot apply $P"; exit 2; }
 fi
 trap 'git -C /repo checkout -- . ; git -C /repo clean -fdq -e cmd/participle/participle >/dev/null 2>&1' EXIT
